@@ -133,7 +133,7 @@ let parse_hop (f : string array) : M.hop =
   | "get" -> M.HGet (h 3, h 4, h 5) | "head" -> M.HHead (h 3, h 4, h 5)
   | "del" -> M.HDelete (h 3, h 4) | "delv" -> M.HDeleteVersion (h 3, h 4, h 5)
   | "mdel" -> M.HMultiDelete (h 3, List.map pair_of (split_on ',' f.(4)))
-  | "copy" -> M.HCopy (h 3, h 4, h 5, h 6)
+  | "copy" -> M.HCopy (h 3, h 4, h 5, h 6, (if Array.length f > 7 && f.(7) <> "=>" then List.map pair_of (split_on ',' f.(7)) else []))
   | "ver" -> M.HSetVersioning (h 3, bool_of_field f.(4))
   | "list" ->
     let d = if f.(5) = "-" then None else (match bytes_of_hex f.(5) with [c] -> Some c | _ -> failwith "multi-byte delimiter") in
@@ -289,6 +289,9 @@ let c07_probes : (M.hop * M.obs) list ref = ref []
 let c07_in_probe = ref false
 let c07_desync = ref false   (* after a non-linearizable round the model state is unknown: skip the rest of the history *)
 
+let c15_crash : (int * bool * string list) option ref = ref None
+let c15_pred : M.hstate option ref = ref None
+
 let is_spec_tag (r : M.n list) = let s = string_of_bytes r in String.length s >= 2 && String.sub s 0 2 = "S:"
 let spec_clean l = not (List.exists is_spec_tag l)
 
@@ -330,14 +333,20 @@ let c07 lineno (f : string array) =
   match f.(1) with
   | "H" ->
     hist lineno f;  (* parses the config and resets the single-state machinery *)
-    c07_cands := [!hist_state]; c07_in_round := false; c07_desync := false
+    c07_cands := [!hist_state]; c07_in_round := false; c07_desync := false; c15_crash := None; c15_pred := None
   | "E" -> print_string "SKIP\n"
   | _ when !c07_desync -> print_string "SKIP\n"
   | "HANG" -> Printf.printf "FAIL\t%d\tmodel=-\tspec=hang:%s\n" lineno (String.map (fun c -> if c = ' ' then '-' else c) (raw_of_hex f.(2)))
   | "REOPEN" ->
     (* a restart keeps the backend state and drops the (in-memory) multipart uploads *)
     c07_cands := dedupe (List.map (fun hs -> { hs with M.hs_up = M.uinit; M.hs_utbl = [] }) !c07_cands); print_string "SKIP\n"
-  | "NOTE" | "CRASH" -> print_string "SKIP\n"
+  | "NOTE" -> print_string "SKIP\n"
+  | "CRASH" ->
+    (* label, position in the model's call sequence, died inside that call?, calls logged by the harness *)
+    c15_crash := (if Array.length f > 5 then Some (int_of_string f.(3), bool_of_field f.(4), List.map raw_of_hex (split_on ',' f.(5))) else None);
+    print_string "SKIP\n"
+  | "GOOD" -> print_string "OK\n"
+  | "BAD" -> Printf.printf "FAIL\t%d\tmodel=-\tspec=%s\n" lineno (String.map (fun c -> if c = ' ' || c = '\t' then '-' else c) (raw_of_hex f.(2)))
   | "MAYBE" ->
     (* a write that was in flight when the server was killed: afterwards the state is the one
        before it or the one after it *)
@@ -345,8 +354,23 @@ let c07 lineno (f : string array) =
     let ob = { M.ob_status = z_of_int 200; ob_code = []; ob_panic = false; ob_body = []; ob_etag = []; ob_cl = [];
                ob_vid = []; ob_delmarker = []; ob_meta = []; ob_names = []; ob_contents = []; ob_truncated = false;
                ob_next = []; ob_versions = [] } in
+    let before = !c07_cands in
     c07_cands := dedupe (!c07_cands @ List.map (fun hs -> fst (M.hist_step md5 !hist_cfg hs o ob)) !c07_cands);
-    print_string "SKIP\n"
+    let target = (match o with
+        | M.HPut (b, k, _, _) | M.HDelete (b, k) | M.HCopy (_, _, b, k, _) -> Some (b, k)
+        | M.HMultiDelete (b, (k, _) :: _) -> Some (b, k)
+        | _ -> None) in
+    (match !c15_crash, before, target with
+     | Some (n, partial, calls), [hs], Some (b, k) ->
+       (* crash model of the filesystem backends: the exact state a kill at that call leaves *)
+       let after = fst (M.hist_step md5 !hist_cfg hs o ob) in
+       let mcalls = List.map string_of_bytes (M.crash_calls md5 hs.M.hs_model after.M.hs_model b k) in
+       c15_pred := Some (M.with_model hs (M.crash_state md5 hs.M.hs_model after.M.hs_model b k (nat_of_int n) partial));
+       if mcalls = calls then print_string "OK\n"
+       else Printf.printf "FAIL\t%d\tmodel=M:crash-model-call-sequence:code=%s:model=%s\tspec=-\n" lineno
+           (String.concat "+" calls) (String.concat "+" mcalls)
+     | _ -> c15_pred := None; print_string "SKIP\n");
+    c15_crash := None
   | "RB" -> c07_in_round := true; c07_in_probe := false; c07_round := []; c07_probes := []; print_string "SKIP\n"
   | "RP" -> c07_in_probe := true; print_string "SKIP\n"
   | "RE" ->
@@ -393,12 +417,24 @@ let c07 lineno (f : string array) =
     let o = parse_hop f and ob = parse_obs f (ai + 1) in
     let stepped = List.map (fun hs -> M.hist_step md5 !hist_cfg hs o ob) !c07_cands in
     let good = List.filter (fun (_, l) -> spec_clean l) stepped in
-    (match good with
-     | [] -> c07_cands := dedupe (List.map fst stepped); verdict_tagged lineno (snd (List.hd stepped))
+    let tags = (match good with
+     | [] -> c07_cands := dedupe (List.map fst stepped); snd (List.hd stepped)
      | _ -> c07_cands := dedupe (List.map fst good);
        (* model-only mismatches are reported only if every candidate has them *)
        let ls = List.map snd good in
-       if List.exists (fun l -> l = []) ls then print_string "OK\n" else verdict_tagged lineno (List.hd ls))
+       if List.exists (fun l -> l = []) ls then [] else List.hd ls) in
+    (match !c15_pred with
+     | None -> verdict_tagged lineno tags
+     | Some p ->
+       (* with a crash model the correspondence is against the predicted state; the spec verdict
+          (is the store in the state before or after the in-flight write?) stays as it is *)
+       let (p', lp) = M.hist_step md5 !hist_cfg p o ob in
+       c15_pred := Some p';
+       let (_, sp) = split_tags tags in
+       let pm = List.map (fun t -> "crash-model:" ^ string_of_bytes t) lp in
+       if sp = [] && pm = [] then print_string "OK\n"
+       else Printf.printf "FAIL\t%d\tmodel=%s\tspec=%s\n" lineno
+           (if pm = [] then "-" else String.concat "," pm) (if sp = [] then "-" else String.concat "," sp))
   | _ -> hist lineno f
 
 let () =
